@@ -3,7 +3,7 @@
    are composed from these in Proofs/InvOps.v. *)
 From Coq Require Import List NArith ZArith Bool Lia Permutation Arith.
 From XotV Require Import Model.Base Model.Zipper Model.Access Model.Store Model.Manip Spec.DocOrder Spec.Paths Spec.Shape
-                         Proofs.PermTac Proofs.StoreProofs Proofs.ForestFacts Proofs.ShapeProofs Proofs.InvProofs.
+                         Proofs.PermTac Proofs.StoreProofs Proofs.ForestFacts Proofs.ShapeProofs Proofs.KeysProofs Proofs.InvProofs.
 Import ListNotations.
 Open Scope N_scope.
 
@@ -168,7 +168,14 @@ Qed.
 
 (* ---------- the invariant and the "grows" order on slot generations ---------- *)
 
-Definition Good (st : xstate) : Prop := SlotInv st /\ shape_store (store st) = true.
+Definition Good (st : xstate) : Prop := SlotInv st /\ shape_store (store st) = true /\ keys (store st) = true.
+
+Lemma Good_shape st : Good st -> shape_store (store st) = true.
+Proof. intros (_ & H & _). exact H. Qed.
+Lemma Good_keys st : Good st -> keys (store st) = true.
+Proof. intros (_ & _ & H). exact H. Qed.
+Lemma Good_slots st : Good st -> SlotInv st.
+Proof. intros (H & _). exact H. Qed.
 
 (* generation of a slot: 2 * stamp while the slot is in use, 2 * stamp + 1 once that use has ended; a handle
    (slot, stamp) is live exactly while the generation is 2 * stamp, and generations never decrease *)
@@ -250,11 +257,11 @@ Proof.
 Qed.
 
 Lemma Ext_with_store st f' :
-  Good st -> Permutation (ids f') (ids (store st)) -> shape_store f' = true -> vsub (store st) f' ->
+  Good st -> Permutation (ids f') (ids (store st)) -> shape_store f' = true -> keys f' = true -> vsub (store st) f' ->
   Ext st (with_store st f').
 Proof.
-  intros G Hp Hsh Hvs. pose proof G as [Hs _].
-  constructor; [exact G|split; [apply SlotInv_with_store; assumption|exact Hsh]|apply grows_same_stamps; reflexivity|cbn; lia|].
+  intros G Hp Hsh Hky Hvs. pose proof G as [Hs _].
+  constructor; [exact G|split; [apply SlotInv_with_store; assumption|split; [exact Hsh|exact Hky]]|apply grows_same_stamps; reflexivity|cbn; lia|].
   intros x v v' _ Hv Hv'. apply val_nodes in Hv'. cbn [store with_store] in Hv'. eapply class_from_vsub; eauto.
 Qed.
 
@@ -286,10 +293,10 @@ Proof.
 Qed.
 
 Lemma Ext_free st f' l :
-  Good st -> Permutation (ids (store st)) (l ++ ids f') -> shape_store f' = true -> vsub (store st) f' ->
+  Good st -> Permutation (ids (store st)) (l ++ ids f') -> shape_store f' = true -> keys f' = true -> vsub (store st) f' ->
   Ext st (free_slots (with_store st f') l).
 Proof.
-  intros G Hp Hsh Hvs. pose proof G as [[H1 H2 H3 H4 H5] _].
+  intros G Hp Hsh Hky Hvs. pose proof G as [[H1 H2 H3 H4 H5] _].
   assert (Permutation (slots_used (free_slots (with_store st f') l)) (slots_used st)) as Hq.
   { unfold slots_used. cbn. rewrite Hp. perm. }
   assert (NoDup l) as Hl.
@@ -301,7 +308,7 @@ Proof.
     eapply NoDup_app_not_in; eauto. }
   assert (forall k, In k (free st) -> ~ In k l) as Hfl.
   { intros k Hk Hkl. apply Hlin in Hkl. unfold slots_used in H1. eapply NoDup_app_not_in; eauto. }
-  constructor; [exact G|split; [constructor|exact Hsh]| |cbn [stamps free_slots with_store]; rewrite fold_free_length; lia|
+  constructor; [exact G|split; [constructor|split; [exact Hsh|exact Hky]]| |cbn [stamps free_slots with_store]; rewrite fold_free_length; lia|
     intros x v v' _ Hv Hv'; apply val_nodes in Hv'; cbn [store free_slots with_store] in Hv'; eapply class_from_vsub; eauto];
     cbn [stamps free_slots with_store free store].
   - eapply Permutation_NoDup; [apply Permutation_sym; exact Hq|exact H1].
@@ -331,10 +338,10 @@ Lemma Ext_new_node st v st' i :
   Good st -> new_node st v = (st', i) ->
   Ext st st' /\ ~ In i (ids (store st)) /\ store st' = FCons i v FNil (store st) /\ cons st' = cons st.
 Proof.
-  intros G Hn. pose proof G as [Hs Hsh]. destruct (SlotInv_new_node _ _ _ _ Hs Hn) as (Hs' & Hni & Hst & Hc).
+  intros G Hn. pose proof G as (Hs & Hsh & Hky). destruct (SlotInv_new_node _ _ _ _ Hs Hn) as (Hs' & Hni & Hst & Hc).
   split; [|auto].
   assert (Good st') as G'.
-  { split; [exact Hs'|]. rewrite Hst. unfold shape_store. rewrite shape_cons, kids_ok_nil. exact Hsh. }
+  { split; [exact Hs'|]. rewrite Hst. split; [unfold shape_store; rewrite shape_cons, kids_ok_nil; exact Hsh|rewrite keys_cons; exact Hky]. }
   constructor; [exact G|exact G'| | |].
   3:{ intros x w w' _ Hw Hw'. apply val_nodes in Hw'. rewrite Hst in Hw'. cbn in Hw'. destruct Hw' as [Hw'|Hw'].
       - inversion Hw'; subst. exfalso. apply Hni. eapply val_in_ids'. exact Hw.
@@ -361,14 +368,24 @@ Qed.
 
 (* ---------- value updates, detach, remove ---------- *)
 
+Lemma same_key_refl v : same_key v v.
+Proof. split; auto. Qed.
+
+Lemma same_class_same_key_normal v w : same_class v w -> is_normal v = true -> same_key v w.
+Proof.
+  intros (Hr & _ & _) Hn. assert (is_normal w = true) as Hw by (apply vrank_normal; rewrite <- Hr; apply vrank_normal; exact Hn).
+  unfold same_key, is_normal in *. destruct (value_category v), (value_category w); try discriminate. split; [reflexivity|congruence].
+Qed.
+
 Lemma Ext_set_value st n g :
-  Good st -> (forall v, val st n = Some v -> same_class v (g v)) -> Ext st (set_value st n g).
+  Good st -> (forall v, val st n = Some v -> same_class v (g v) /\ same_key v (g v)) -> Ext st (set_value st n g).
 Proof.
   intros G Hg. unfold set_value.
-  assert (forall v, In (n, v) (nodes (store st)) -> same_class v (g v)) as Hg'.
+  assert (forall v, In (n, v) (nodes (store st)) -> same_class v (g v) /\ same_key v (g v)) as Hg'.
   { intros v Hin. apply Hg. apply nodes_val; [apply Good_nodup; exact G|exact Hin]. }
-  apply Ext_with_store; [exact G|rewrite nodes_fset_val_ids; reflexivity| |apply vsub_fset_val'; exact Hg'].
-  apply shape_fset_val; [apply G|exact Hg'].
+  apply Ext_with_store; [exact G|rewrite nodes_fset_val_ids; reflexivity| | |apply vsub_fset_val'; intros v Hv; apply Hg'; exact Hv].
+  - apply shape_fset_val; [apply Good_shape; exact G|intros v Hv; apply Hg'; exact Hv].
+  - apply keys_fset_val; [apply Good_keys; exact G|intros v Hv; apply Hg'; exact Hv].
 Qed.
 
 Lemma fcut_slot n f f' i v k : fcut n f = Some (f', (i, v, k)) -> i = n.
@@ -378,10 +395,12 @@ Lemma Ext_detach_raw st n : Good st -> Ext st (detach_raw st n).
 Proof.
   intros G. unfold detach_raw. destruct (fcut n (store st)) as [[f' [[i v] k]]|] eqn:E; [|apply Ext_refl; exact G].
   pose proof (fcut_ids _ _ _ _ _ _ E) as Hp. pose proof (fcut_slot _ _ _ _ _ _ E) as ->.
-  destruct (shape_fcut _ _ _ _ _ _ _ _ (Nat.le_0_l _) (proj2 G) E) as [Hf Hk].
-  apply Ext_with_store; [exact G| | |].
+  destruct (shape_fcut _ _ _ _ _ _ _ _ (Nat.le_0_l _) (Good_shape _ G) E) as [Hf Hk].
+  destruct (keys_fcut _ _ _ _ _ _ (Good_keys _ G) E) as (Kf & Kt & _).
+  apply Ext_with_store; [exact G| | | |].
   - cbn. apply Permutation_sym. exact Hp.
   - cbn [single fapp]. unfold shape_store. rewrite shape_cons, Hk. exact Hf.
+  - cbn [single fapp]. rewrite keys_cons. unfold keys_tree in Kt. rewrite Kt. exact Kf.
   - apply vsub_perm. apply fcut_spec in E as [_ E]. cbn [single fapp nodes]. exact E.
 Qed.
 
@@ -389,8 +408,9 @@ Lemma Ext_remove_subtree_raw st n : Good st -> Ext st (remove_subtree_raw st n).
 Proof.
   intros G. unfold remove_subtree_raw. destruct (fcut n (store st)) as [[f' [[i v] k]]|] eqn:E; [|apply Ext_refl; exact G].
   pose proof (fcut_ids _ _ _ _ _ _ E) as Hp. pose proof (fcut_slot _ _ _ _ _ _ E) as ->.
-  destruct (shape_fcut _ _ _ _ _ _ _ _ (Nat.le_0_l _) (proj2 G) E) as [Hf Hk].
-  apply Ext_free; [exact G|exact Hp|exact Hf|eapply vsub_fcut; exact E].
+  destruct (shape_fcut _ _ _ _ _ _ _ _ (Nat.le_0_l _) (Good_shape _ G) E) as [Hf Hk].
+  destruct (keys_fcut _ _ _ _ _ _ (Good_keys _ G) E) as (Kf & _ & _).
+  apply Ext_free; [exact G|exact Hp|exact Hf|exact Kf|eapply vsub_fcut; exact E].
 Qed.
 
 Lemma Ext_remove_single_inner st n :
@@ -398,16 +418,18 @@ Lemma Ext_remove_single_inner st n :
   (forall v k, find n (store st) = Some (v, k) -> shape CElem 2 k = true) -> Ext st (remove_single_raw st n).
 Proof.
   intros G Hin Hk. unfold remove_single_raw. pose proof (Good_nodup _ G) as Hnd.
-  apply Ext_free; [exact G|apply ids_fsplice; assumption| |apply vsub_fsplice].
-  apply shape_fsplice_inner; [exact Hnd|lia|apply G|exact Hk].
+  apply Ext_free; [exact G|apply ids_fsplice; assumption| | |apply vsub_fsplice].
+  - apply shape_fsplice_inner; [exact Hnd|lia|apply Good_shape; exact G|exact Hk].
+  - apply keys_fsplice; [exact Hnd|apply Good_keys; exact G|]. intros v k Hf. apply shape2_no_abnormal. eapply Hk. exact Hf.
 Qed.
 
 Lemma Ext_remove_single_root st n :
   Good st -> In n (root_slots (store st)) -> Ext st (remove_single_raw st n).
 Proof.
   intros G Hin. unfold remove_single_raw. pose proof (Good_nodup _ G) as Hnd.
-  apply Ext_free; [exact G|apply ids_fsplice; [exact Hnd|apply root_slots_incl; exact Hin]| |apply vsub_fsplice].
-  apply shape_fsplice_root; [exact Hnd|apply G|exact Hin].
+  apply Ext_free; [exact G|apply ids_fsplice; [exact Hnd|apply root_slots_incl; exact Hin]| | |apply vsub_fsplice].
+  - apply shape_fsplice_root; [exact Hnd|apply Good_shape; exact G|exact Hin].
+  - apply keys_fsplice_root; [exact Hnd|apply Good_keys; exact G|exact Hin].
 Qed.
 
 (* ---------- consolidation helpers ---------- *)
@@ -461,10 +483,13 @@ Qed.
 
 Lemma Ext_merged st st1 gone : Good st -> merged_into st st1 gone -> Ext st st1.
 Proof.
-  intros G (t & g & s & Hv & Hg & _ & ->).
-  eapply Ext_step; [apply (Ext_set_value st t g G); intros; apply Hg|]. intros G1.
+  intros G (t & g & s & Hv & Hg & Hid & ->).
+  eapply Ext_step; [apply (Ext_set_value st t g G)|].
+  { intros v _. split; [apply Hg|]. destruct (is_text_val v) eqn:Et; [|rewrite (Hid v Et); apply same_key_refl].
+    apply same_class_same_key_normal; [apply Hg|destruct v; try discriminate; reflexivity]. }
+  intros G1.
   destruct (val_find _ _ _ Hv) as [k Hk].
-  assert (k = FNil) as -> by (pose proof (shape_find _ _ _ _ _ _ (proj2 G) Hk) as Hs; destruct k; [reflexivity|discriminate]).
+  assert (k = FNil) as -> by (pose proof (shape_find _ _ _ _ _ _ (Good_shape _ G) Hk) as Hs; destruct k; [reflexivity|discriminate]).
   apply Ext_remove_single_inner; [exact G1| |].
   - cbn [store set_value with_store]. rewrite nodes_fset_val_ids. eapply find_incl; [exact Hk|left; reflexivity].
   - intros v' k' Hf. cbn [store set_value with_store] in Hf.
